@@ -503,7 +503,9 @@ func (g *gen) one() *Func {
 			b.I(get(i))
 		}
 		b.I(o.Name)
-		return b.fn(o.Name, shape, o.Exact, false)
+		f := b.fn(o.Name, shape, o.Exact, false)
+		f.argGen = specialArgs(o)
+		return f
 
 	case "tee": // local.tee / local.set / drop around a binary op
 		o := g.pickNumeric("op", func(o *OpInfo) bool { return len(o.In) == 2 })
@@ -1137,6 +1139,63 @@ func (g *gen) one() *Func {
 		return f
 	}
 	return nil
+}
+
+// specialArgs biases the operands of a plain numeric instruction towards its
+// own special region (division overflow, shift counts, ties, NaN / signed
+// zeros, conversion range edges) for a third of the calls.
+func specialArgs(o *OpInfo) func(t *rapid.T, lbl string) []uint64 {
+	base := o.Name[strings.IndexByte(o.Name, '.')+1:]
+	w64 := o.In[0] == 'I' || o.In[0] == 'F'
+	pick := func(t *rapid.T, lbl string, pool []uint64) uint64 { return rapid.SampledFrom(pool).Draw(t, lbl) }
+	return func(t *rapid.T, lbl string) []uint64 {
+		args := make([]uint64, len(o.In))
+		for i := range args {
+			args[i] = DrawVal(t, o.In[i], fmt.Sprintf("%s%d", lbl, i))
+		}
+		if rapid.IntRange(0, 2).Draw(t, lbl+"sp") != 0 {
+			return args
+		}
+		switch {
+		case strings.HasPrefix(base, "div_") || strings.HasPrefix(base, "rem_"):
+			if w64 {
+				args[0] = pick(t, lbl+"x", []uint64{1 << 63, 1<<63 + 1, ^uint64(0), 7, 1<<63 - 1})
+				args[1] = pick(t, lbl+"y", []uint64{^uint64(0), 0, 1, 2, 1 << 63})
+			} else {
+				args[0] = pick(t, lbl+"x", []uint64{0x80000000, 0x80000001, 0xffffffff, 7, 0x7fffffff})
+				args[1] = pick(t, lbl+"y", []uint64{0xffffffff, 0, 1, 2, 0x80000000})
+			}
+		case base == "shl" || base == "shr_s" || base == "shr_u" || base == "rotl" || base == "rotr":
+			if w64 {
+				args[1] = pick(t, lbl+"y", i64Counts)
+			} else {
+				args[1] = pick(t, lbl+"y", i32Counts)
+			}
+		case base == "nearest" || base == "ceil" || base == "floor" || base == "trunc":
+			if w64 {
+				args[0] = pick(t, lbl+"x", []uint64{f64b(0.5), f64b(-0.5), f64b(1.5), f64b(2.5), f64b(-2.5), f64b(3.5), f64b(4503599627370495.5), f64b(-0.2), 1 << 63, f64b(0.49999999999999994)})
+			} else {
+				args[0] = pick(t, lbl+"x", []uint64{f32b(0.5), f32b(-0.5), f32b(1.5), f32b(2.5), f32b(-2.5), f32b(3.5), f32b(8388607.5), f32b(-0.2), 0x80000000, f32b(0.49999997)})
+			}
+		case base == "min" || base == "max" || base == "copysign" || len(o.In) == 2 && (o.In[0] == 'f' || o.In[0] == 'F'):
+			var pool []uint64
+			if w64 {
+				pool = []uint64{0, 1 << 63, CanonNaN64, 0xfff8000000000000, 0x7ff0000000000000, 0xfff0000000000000, f64b(1), f64b(-1), 0x7ff4000000000000}
+			} else {
+				pool = []uint64{0, 0x80000000, CanonNaN32, 0xffc00000, 0x7f800000, 0xff800000, f32b(1), f32b(-1), 0x7fa00000}
+			}
+			args[0], args[1] = pick(t, lbl+"x", pool), pick(t, lbl+"y", pool)
+		case strings.HasPrefix(base, "trunc_f"):
+			if o.In[0] == 'F' {
+				args[0] = pick(t, lbl+"x", []uint64{f64b(2147483647.9), f64b(2147483648), f64b(-2147483648.9), f64b(-2147483649), f64b(4294967295.9), f64b(4294967296), f64b(-0.9), f64b(-1),
+					0x43dfffffffffffff, 0x43e0000000000000, 0xc3e0000000000000, 0xc3e0000000000001, 0x43efffffffffffff, 0x43f0000000000000, CanonNaN64, 0x7ff0000000000000})
+			} else {
+				args[0] = pick(t, lbl+"x", []uint64{0x4effffff, 0x4f000000, 0xcf000000, 0xcf000001, 0x4f7fffff, 0x4f800000, 0xbf7fffff, 0xbf800000,
+					0x5effffff, 0x5f000000, 0xdf000000, 0xdf000001, 0x5f7fffff, 0x5f800000, CanonNaN32, 0x7f800000})
+			}
+		}
+		return args
+	}
 }
 
 func constClass(in string, args []uint64) string {
